@@ -12,7 +12,7 @@ def c16 (op : String) (j : Json) : Except String Json := do
   | "c16.predict" =>
     let fn ← (← field j "fn").getStr?
     let f : Features := { preplaced := ← (← field j "preplaced").getBool?, payload := ← (← field j "payload").getBool?,
-                          mapOps := ← (← field j "map_ops").getBool? }
+                          mapOps := ← (← field j "map_ops").getBool?, paramOps := ← (fieldD j "param_ops" (Json.bool false)).getBool? }
     let sk := skeletonOf fn
     pure (Json.mkObj [("ok", Json.mkObj [("framed", Json.bool (framed sk)), ("known", Json.bool (!sk.isEmpty)),
       ("shares", jList (fun s => Json.str (shareName s)) (shares sk f))])])
